@@ -191,13 +191,26 @@ def generic_unit(ctx, src, base):
     u = Unit(ctx, 'expect_generic')
     ctor = u.snippet(src, CC, r'expectation_failed::expectation_failed\(const char\* msg, const char\* file, uint64_t line\)\s*:\s*'
                               r'\w+\(string_printf\("failure at %s:%" PRIu64 ": %s", \w+, \w+, \w+\)\),\s*'
-                              r'msg\(\w+\),\s*file\(\w+\),\s*line\(\w+\)\s*\{\s*\}')
+                              r'msg\(\w+\),\s*file\(\w+\),\s*line\(\w+\)\s*(?=\{)')
+    # the constructor body (normally empty): assignments to the payload members are carried over; a member that is re-assigned from anything
+    # but one of the three parameters holds a value the model cannot relate to the arguments (nondeterministic) -- the contract of
+    # expect_generic then decides whether "the exception carries the message / file / line it was given" still holds
+    _, cbody, _, _ = lex.find_def(src.text(CC), r'expectation_failed::expectation_failed\(const char\* msg, const char\* file, uint64_t line\)[^{]*', 'constructor')
+    extra = ''
+    for st in [x.strip() for x in cbody.strip()[1:-1].split(';') if x.strip()]:
+        mo2 = re.fullmatch(r'(?:this->|self->)?(msg|file|line) = (.*)', st, re.S)
+        if not mo2:
+            raise ExtractionBreak('expectation_failed constructor body: unsupported statement %r' % st[:80])
+        member, rhs = mo2.group(1), ' '.join(mo2.group(2).split())
+        extra += '  g_exc_%s = %s;   /* constructor body: %s = %s */\n' % (member, rhs if rhs in ('msg', 'file', 'line') else
+                                                                        ('nondet_c19_line()' if member == 'line' else 'nondet_c19_text()'), member, rhs.replace('*/', '* /').replace('this->', 'self.').replace('::', '.'))
     mo = re.search(r':\s*(\w+)\(string_printf\("[^"]*" PRIu64 "[^"]*", (\w+), (\w+), (\w+)\)\),\s*msg\((\w+)\),\s*file\((\w+)\),\s*line\((\w+)\)', ctor)
     if mo.group(1) != base:
         raise ExtractionBreak('constructor initialises base %r but the class derives from %r' % (mo.group(1), base))
-    u.raw('static inline void expectation_failed__ctor(const char* msg, const char* file, uint64_t line)\n{\n'
+    u.raw('const char* nondet_c19_text(void); uint64_t nondet_c19_line(void);\n'
+          'static inline void expectation_failed__ctor(const char* msg, const char* file, uint64_t line)\n{\n'
           '  g_what_file = (%s); g_what_line = (%s); g_what_msg = (%s);\n'
-          '  g_exc_msg = (%s); g_exc_file = (%s); g_exc_line = (%s);\n}' % mo.group(2, 3, 4, 5, 6, 7))
+          '  g_exc_msg = (%s); g_exc_file = (%s); g_exc_line = (%s);\n' % mo.group(2, 3, 4, 5, 6, 7) + extra + '}')
     u.functions.append({'file': CC, 'cxx_header': 'expectation_failed::expectation_failed(const char* msg, const char* file, uint64_t line) : ...',
                         'c_header': 'static inline void expectation_failed__ctor(const char* msg, const char* file, uint64_t line)', 'line': 0})
     u.function(src, CC, r'void expect_generic\(bool pred, const char\* msg, const char\* file, uint64_t line\)',
